@@ -225,6 +225,12 @@ func c09PoolText(pool []c09Frag) string {
 //	trailing end dead; 2 trailing end matches a junction, leading end dead
 //	(each then supplied in a random orientation).
 func c09MakeDesign(rng *rand.Rand, k, maxAlt, maxRings, nDecoy int, avoid []string) c09Design {
+	return c09MakeDesignAlts(rng, k, maxAlt, maxRings, nDecoy, avoid, nil)
+}
+
+// c09MakeDesignAlts is c09MakeDesign with the number of alternatives per slot
+// given (forced != nil: len(forced) = k, no deliberately repeated alternative).
+func c09MakeDesignAlts(rng *rand.Rand, k, maxAlt, maxRings, nDecoy int, avoid []string, forced []int) c09Design {
 	ov := c09Overhangs(rng, k+2*nDecoy+2)
 	junction := ov[:k]
 	dead := ov[k:]
@@ -241,9 +247,14 @@ func c09MakeDesign(rng *rand.Rand, k, maxAlt, maxRings, nDecoy int, avoid []stri
 		}
 	}
 	for j := 0; j < k; j++ {
-		a := 1 + rng.Intn(maxAlt)
-		for rings*a > maxRings && a > 1 {
-			a--
+		a := 0
+		if forced != nil {
+			a = forced[j]
+		} else {
+			a = 1 + rng.Intn(maxAlt)
+			for rings*a > maxRings && a > 1 {
+				a--
+			}
 		}
 		rings *= a
 		d.alts = append(d.alts, a)
@@ -252,7 +263,7 @@ func c09MakeDesign(rng *rand.Rand, k, maxAlt, maxRings, nDecoy int, avoid []stri
 			f := c09Frag{c09RandSeq(rng, seqLen(), avoid...), junction[j], junction[(j+1)%k]}
 			if i == 0 {
 				first = f
-			} else if rng.Intn(12) == 0 {
+			} else if forced == nil && rng.Intn(12) == 0 {
 				f = first // the same molecule offered twice: still one ring
 				d.note = "duplicate-alternative"
 			}
@@ -279,6 +290,59 @@ func c09MakeDesign(rng *rand.Rand, k, maxAlt, maxRings, nDecoy int, avoid []stri
 	}
 	rng.Shuffle(len(d.pool), func(i, j int) { d.pool[i], d.pool[j] = d.pool[j], d.pool[i] })
 	return d
+}
+
+// c09LargeAlts lists the combinatorial libraries with more than 128 rings
+// (still 5..6 junctions, 2..3 alternatives per slot) that are run in addition
+// to the random designs: fixed shapes first, then (thorough) random ones.
+func c09LargeAlts(rng *rand.Rand, thorough bool, forGG bool) [][]int {
+	out := [][]int{{3, 3, 3, 3, 3}}
+	if !forGG {
+		out = append(out, []int{3, 3, 3, 3, 2, 2})
+	}
+	if !thorough {
+		return out
+	}
+	out = append(out, []int{3, 3, 3, 3, 3, 3}, []int{3, 3, 2, 3, 3}, []int{2, 3, 3, 2, 3, 3})
+	if forGG {
+		out = append(out, []int{3, 3, 3, 3, 3}, []int{3, 3, 3, 3, 2, 2}) // so that each enzyme gets a fixed shape
+	}
+	extra := 10
+	if forGG {
+		extra = 4
+	}
+	for n := len(out) + extra; len(out) < n; {
+		k := 5 + rng.Intn(2)
+		alts := make([]int, k)
+		prod := 1
+		for j := range alts {
+			alts[j] = 2 + rng.Intn(2)
+			prod *= alts[j]
+		}
+		if prod > 128 {
+			out = append(out, alts)
+		}
+	}
+	return out
+}
+
+// c09LargeDesign draws a design with the given alternatives per slot, 0..1
+// decoys, no cycle that excludes a seed, and more than 128 distinct rings
+// (alternatives of one slot that happen to be the same molecule, e.g. two
+// empty interiors, give fewer rings; such a draw is repeated).
+func c09LargeDesign(rng *rand.Rand, alts []int, avoid []string) (c09Design, map[string]bool, bool) {
+	for try := 0; try < 40; try++ {
+		d := c09MakeDesignAlts(rng, len(alts), 3, 0, rng.Intn(2), avoid, alts)
+		d.note = "large-library"
+		if c09SeedFreeCycle(d.pool) {
+			continue
+		}
+		want := c09Rings(d.pool)
+		if len(want) > 128 {
+			return d, want, true
+		}
+	}
+	return c09Design{}, nil, false
 }
 
 func c09ToFragments(pool []c09Frag) []Fragment {
@@ -325,6 +389,14 @@ func c09Compare(parts []Part, want map[string]bool, fail func(class, detail stri
 	if len(dup) > 0 {
 		fail("construct-duplicated", head+"same molecule returned more than once: "+strings.Join(dup, ", "))
 	}
+}
+
+// c09LargeClass: a ring missing from a pool with more than 128 rings is a shape of its own.
+func c09LargeClass(class string, want map[string]bool) string {
+	if class == "ring-missing" && len(want) > 128 {
+		return "ring-missing-in-large-library"
+	}
+	return class
 }
 
 func c09Clip(s string) string {
@@ -598,6 +670,15 @@ func TestVerifC09(t *testing.T) {
 		nLigate, nGG, nOrder, nTerm = 800, 300, 300, 60
 		perms = 10
 	}
+	// large combinatorial libraries (more than 128 rings) come from their own
+	// random stream so that the other cases do not depend on them
+	lrng := rand.New(rand.NewSource(verifSeed() + 909))
+	largeLig := c09LargeAlts(lrng, thorough, false)
+	largeGG := c09LargeAlts(lrng, thorough, true)
+	nLargeOrder := 1
+	if thorough {
+		nLargeOrder = 3
+	}
 	hung := false
 	// guarded in-process call: these pools have no cycle that excludes a seed,
 	// so the call is expected to return at once; a call that does not is
@@ -619,20 +700,31 @@ func TestVerifC09(t *testing.T) {
 	// ---- CircularLigate on fragments ----
 	var vLig *verifRun
 	{
-		v := newVerifRun("C09", c09ClauseLigate, fmt.Sprintf("sampled, %d designed assemblies given directly as fragments: 1..6 junctions with distinct non-palindromic 4-base overhangs (none the reverse complement of another), 1..3 alternative fragments per slot (interiors of 0..31 bases, sometimes the same molecule twice), 0..3 decoys (both ends dead / only the leading end live / only the trailing end live), every fragment supplied in a random orientation, pool shuffled; pools in which some supplied fragment sees a cycle that avoids its own leading overhang are left to the termination clause (this removes every pool with a decoy whose live end trails as supplied); each pool run %d times at each of GOMAXPROCS 1, 2, 16; the set of canonical forms (own brute-force least rotation over both strands) of the returned constructs must equal that of the independent ring enumerator, without repeats, every construct marked circular; non-trivial = at least 2 fragments in some ring or more than one ring; in addition the pools (a)-(c) and the controls of the termination clause, whenever their child process returned, are compared in the same way (classes then end in -in-cyclic-pool)", nLigate, reps))
+		v := newVerifRun("C09", c09ClauseLigate, fmt.Sprintf("sampled, %d designed assemblies given directly as fragments: 1..6 junctions with distinct non-palindromic 4-base overhangs (none the reverse complement of another), 1..3 alternative fragments per slot (interiors of 0..31 bases, sometimes the same molecule twice), 0..3 decoys (both ends dead / only the leading end live / only the trailing end live), every fragment supplied in a random orientation, pool shuffled; these have at most %d rings with 5..6 junctions and at most 81 with fewer; plus %d large combinatorial libraries of the same kind with more than 128 distinct rings each (alternatives per slot %v, 0..1 decoys, no deliberately repeated molecule; 128 < rings <= 729); pools in which some supplied fragment sees a cycle that avoids its own leading overhang are left to the termination clause (this removes every pool with a decoy whose live end trails as supplied); each pool run %d times at each of GOMAXPROCS 1, 2, 16; the set of canonical forms (own brute-force least rotation over both strands) of the returned constructs must equal that of the independent ring enumerator, without repeats, every construct marked circular (class ring-missing-in-large-library when a ring of a pool with more than 128 rings is missing); non-trivial = at least 2 fragments in some ring or more than one ring; in addition the pools (a)-(c) and the controls of the termination clause, whenever their child process returned, are compared in the same way (classes then end in -in-cyclic-pool)", nLigate, map[bool]int{false: 64, true: 729}[thorough], len(largeLig), largeLig, reps))
 		v.Sampled()
 		vLig = v
-		for i := 0; i < nLigate && !hung; i++ {
-			k := 1 + rng.Intn(6)
-			maxRings := 729
-			if !thorough && k >= 5 {
-				maxRings = 64
+		for i := 0; i < nLigate+len(largeLig) && !hung; i++ {
+			var d c09Design
+			var want map[string]bool
+			var k int
+			if i < nLigate {
+				k = 1 + rng.Intn(6)
+				maxRings := 729
+				if !thorough && k >= 5 {
+					maxRings = 64
+				}
+				d = c09MakeDesign(rng, k, 3, maxRings, rng.Intn(4), nil)
+				if c09SeedFreeCycle(d.pool) {
+					continue
+				}
+				want = c09Rings(d.pool)
+			} else {
+				var ok bool
+				k = len(largeLig[i-nLigate])
+				if d, want, ok = c09LargeDesign(lrng, largeLig[i-nLigate], nil); !ok {
+					t.Fatalf("harness: no large library for alternatives %v", largeLig[i-nLigate])
+				}
 			}
-			d := c09MakeDesign(rng, k, 3, maxRings, rng.Intn(4), nil)
-			if c09SeedFreeCycle(d.pool) {
-				continue
-			}
-			want := c09Rings(d.pool)
 			frs := c09ToFragments(d.pool)
 			for _, p := range c09Procs {
 				for r := 0; r < reps && !hung; r++ {
@@ -653,7 +745,7 @@ func TestVerifC09(t *testing.T) {
 						v.Fail("panic", input, fmt.Sprint("panic: ", perr))
 						continue
 					}
-					c09Compare(parts, want, func(class, detail string) { v.Fail(class, input, detail) })
+					c09Compare(parts, want, func(class, detail string) { v.Fail(c09LargeClass(class, want), input, detail) })
 				}
 			}
 		}
@@ -661,16 +753,29 @@ func TestVerifC09(t *testing.T) {
 
 	// ---- GoldenGate on carrier parts ----
 	{
-		v := newVerifRun("C09", c09ClauseGG, fmt.Sprintf("sampled, %d designed assemblies (1..5 junctions, 1..3 alternatives, at most 81 rings, 0..2 decoys, same exclusion as above) whose fragments are each wrapped in BsaI, BbsI or BtgZI sites and carried, one or two per part, on circular parts (stored from a random origin that does not fall inside a site, its skip or its overhang, so that C10's origin defect is not in play) and linear parts, cassettes in either orientation, a quarter of the parts in lower case, plus parts without any site or with a single site; parts shuffled; each run %d times at GOMAXPROCS 1, 2, 16; result compared as above with the rings of the designed fragments; non-trivial as above", nGG, (reps+1)/2))
+		v := newVerifRun("C09", c09ClauseGG, fmt.Sprintf("sampled, %d designed assemblies (1..5 junctions, 1..3 alternatives, at most %d rings, 0..2 decoys, same exclusion as above) plus %d large combinatorial libraries with more than 128 distinct rings each (5..6 junctions, alternatives per slot %v, 0..1 decoys; class ring-missing-in-large-library) whose fragments are each wrapped in BsaI, BbsI or BtgZI sites and carried, one or two per part, on circular parts (stored from a random origin that does not fall inside a site, its skip or its overhang, so that C10's origin defect is not in play) and linear parts, cassettes in either orientation, a quarter of the parts in lower case, plus parts without any site or with a single site; parts shuffled; each run %d times at GOMAXPROCS 1, 2, 16; result compared as above with the rings of the designed fragments; non-trivial as above", nGG, map[bool]int{false: 27, true: 81}[thorough], len(largeGG), largeGG, (reps+1)/2))
 		v.Sampled()
-		for i := 0; i < nGG && !hung; i++ {
+		largeRetry := 0
+		for i := 0; i < nGG+len(largeGG) && !hung; i++ {
 			e := c09Enzymes[i%3]
-			k := 1 + rng.Intn(5)
-			maxRings := 81
-			if !thorough {
-				maxRings = 27
+			rng := rng
+			var d c09Design
+			var k int
+			if i < nGG {
+				k = 1 + rng.Intn(5)
+				maxRings := 81
+				if !thorough {
+					maxRings = 27
+				}
+				d = c09MakeDesign(rng, k, 3, maxRings, rng.Intn(3), []string{e.site, c09RC(e.site)})
+			} else {
+				rng = lrng
+				k = len(largeGG[i-nGG])
+				var ok bool
+				if d, _, ok = c09LargeDesign(lrng, largeGG[i-nGG], []string{e.site, c09RC(e.site)}); !ok {
+					t.Fatalf("harness: no large library for alternatives %v", largeGG[i-nGG])
+				}
 			}
-			d := c09MakeDesign(rng, k, 3, maxRings, rng.Intn(3), []string{e.site, c09RC(e.site)})
 			// a fragment of fewer than 2 overhang lengths cannot be cut out; all have 8+ bases by construction
 			// a cassette may sit on its carrier in either orientation; the fragment then
 			// comes off flipped, and the exclusion is applied to the fragments as cut
@@ -688,6 +793,10 @@ func TestVerifC09(t *testing.T) {
 				safe = !c09SeedFreeCycle(asCut)
 			}
 			if !safe {
+				if i >= nGG && largeRetry < 20 { // a large library is not given up: draw it again
+					largeRetry++
+					i--
+				}
 				continue
 			}
 			want := c09Rings(d.pool)
@@ -707,6 +816,10 @@ func TestVerifC09(t *testing.T) {
 				j += take
 			}
 			if !okBuild {
+				if i >= nGG && largeRetry < 20 {
+					largeRetry++
+					i--
+				}
 				continue
 			}
 			if rng.Intn(3) == 0 {
@@ -748,7 +861,7 @@ func TestVerifC09(t *testing.T) {
 						v.Fail("error", input, "error: "+err.Error())
 						continue
 					}
-					c09Compare(got, want, func(class, detail string) { v.Fail(class, input, detail) })
+					c09Compare(got, want, func(class, detail string) { v.Fail(c09LargeClass(class, want), input, detail) })
 				}
 			}
 		}
@@ -757,12 +870,22 @@ func TestVerifC09(t *testing.T) {
 
 	// ---- order independence ----
 	{
-		v := newVerifRun("C09", c09ClauseOrder, fmt.Sprintf("sampled, %d designed pools as in the CircularLigate clause (2..6 junctions, at most 81 rings), each ligated in %d random orders of the same fragments (orientations kept) at a random GOMAXPROCS of 1, 2, 16; the sets of canonical forms must all equal that of the first order; non-trivial = at least 3 fragments", nOrder, perms))
+		v := newVerifRun("C09", c09ClauseOrder, fmt.Sprintf("sampled, %d designed pools as in the CircularLigate clause (2..6 junctions, at most 81 rings) plus %d large combinatorial libraries as in that clause (5 junctions x 3 alternatives, more than 128 distinct rings; class permuted-input-large-library), each ligated in %d random orders of the same fragments (orientations kept) at a random GOMAXPROCS of 1, 2, 16; the sets of canonical forms must all equal that of the first order; non-trivial = at least 3 fragments", nOrder, nLargeOrder, perms))
 		v.Sampled()
-		for i := 0; i < nOrder && !hung; i++ {
-			d := c09MakeDesign(rng, 2+rng.Intn(5), 3, 81, rng.Intn(4), nil)
-			if c09SeedFreeCycle(d.pool) {
-				continue
+		for i := 0; i < nOrder+nLargeOrder && !hung; i++ {
+			var d c09Design
+			rng := rng
+			if i < nOrder {
+				d = c09MakeDesign(rng, 2+rng.Intn(5), 3, 81, rng.Intn(4), nil)
+				if c09SeedFreeCycle(d.pool) {
+					continue
+				}
+			} else {
+				rng = lrng
+				var ok bool
+				if d, _, ok = c09LargeDesign(lrng, []int{3, 3, 3, 3, 3}, nil); !ok {
+					t.Fatalf("harness: no large library for the order clause")
+				}
 			}
 			var ref map[string]int
 			var refOrder string
@@ -805,7 +928,11 @@ func TestVerifC09(t *testing.T) {
 					}
 				}
 				if !same {
-					v.Fail("permuted-input", input, fmt.Sprintf("%d distinct constructs for the first order, %d for this one", len(ref), len(got)))
+					class := "permuted-input"
+					if len(ref) > 128 || len(got) > 128 || i >= nOrder {
+						class = "permuted-input-large-library"
+					}
+					v.Fail(class, input, fmt.Sprintf("%d distinct constructs for the first order, %d for this one", len(ref), len(got)))
 				}
 			}
 		}
